@@ -5,6 +5,7 @@ import Driver.Compose
 import Driver.RetryDelay
 import Driver.Adapters
 import Driver.Linz
+import Driver.Trace
 /-!
 # Model driver (DIFF tie)
 
@@ -23,6 +24,7 @@ structure All where
   rd : RetryDelay.St := {}
   ad : Adapters.St := {}
   lz : Linz.St := {}
+  tc : Driver.Trace.St := {}
 
 def splitObs (line : String) : String × Option String :=
   match line.splitOn " => " with
@@ -51,7 +53,7 @@ partial def loop (h : IO.FS.Stream) (st : All) (caseId : String) (lineNo cases o
   match toks with
   | "case" :: id :: _ =>
     -- new case: reset per-case state, keep counters
-    loop h { lim := { nontrivial := st.lim.nontrivial }, brk := { nontrivial := st.brk.nontrivial, transitions := st.brk.transitions, refused := st.brk.refused }, cls := { nontrivial := st.cls.nontrivial }, cmp := { nontrivial := st.cmp.nontrivial, runs := st.cmp.runs, events := st.cmp.events, maxStack := st.cmp.maxStack, cancelled := st.cmp.cancelled }, rd := { nontrivial := st.rd.nontrivial, checkedDelays := st.rd.checkedDelays, randomDelays := st.rd.randomDelays }, ad := st.ad, lz := { nontrivial := st.lz.nontrivial, rounds := st.lz.rounds, opsChecked := st.lz.opsChecked, maxCands := st.lz.maxCands } } id (lineNo+1) (cases+1) ops diffs quiet
+    loop h { lim := { nontrivial := st.lim.nontrivial }, brk := { nontrivial := st.brk.nontrivial, transitions := st.brk.transitions, refused := st.brk.refused }, cls := { nontrivial := st.cls.nontrivial }, cmp := { nontrivial := st.cmp.nontrivial, runs := st.cmp.runs, events := st.cmp.events, maxStack := st.cmp.maxStack, cancelled := st.cmp.cancelled }, rd := { nontrivial := st.rd.nontrivial, checkedDelays := st.rd.checkedDelays, randomDelays := st.rd.randomDelays }, ad := st.ad, lz := { nontrivial := st.lz.nontrivial, rounds := st.lz.rounds, opsChecked := st.lz.opsChecked, maxCands := st.lz.maxCands }, tc := st.tc } id (lineNo+1) (cases+1) ops diffs quiet
   | "limiter" :: rest =>
     let (l', exp) := Limiter.step st.lim rest
     handle { st with lim := l' } exp
@@ -66,6 +68,14 @@ partial def loop (h : IO.FS.Stream) (st : All) (caseId : String) (lineNo cases o
   | "linz" :: rest =>
     let (z', verdict) := Linz.check st.lz rest obs
     let st' := { st with lz := z' }
+    match verdict with
+    | none => loop h st' caseId (lineNo+1) cases (ops + (if obs.isSome then 1 else 0)) diffs quiet
+    | some msg => do
+      IO.println s!"DIFF case={caseId} line={lineNo} | {line} | model={msg}"
+      loop h st' caseId (lineNo+1) cases (ops+1) (diffs+1) quiet
+  | "trace" :: rest =>
+    let (t', verdict) := Driver.Trace.check st.tc rest obs
+    let st' := { st with tc := t' }
     match verdict with
     | none => loop h st' caseId (lineNo+1) cases (ops + (if obs.isSome then 1 else 0)) diffs quiet
     | some msg => do
@@ -95,5 +105,5 @@ partial def loop (h : IO.FS.Stream) (st : All) (caseId : String) (lineNo cases o
 def main (args : List String) : IO UInt32 := do
   let stdin ← IO.getStdin
   let (cases, ops, diffs, st) ← loop stdin {} "-" 1 0 0 0 (args.contains "--quiet")
-  IO.println s!"SUMMARY cases={cases} ops={ops} diffs={diffs} nontrivial={st.lim.nontrivial + st.brk.nontrivial + st.cls.nontrivial + st.cmp.nontrivial + st.rd.nontrivial + st.ad.nontrivial + st.lz.nontrivial} linz_rounds={st.lz.rounds} linz_ops={st.lz.opsChecked} linz_max_candidate_states={st.lz.maxCands} http_runs={st.ad.httpRuns} http_attempts={st.ad.attempts} http_retry_after_waits={st.ad.waited} delays_checked={st.rd.checkedDelays} delays_with_random_part={st.rd.randomDelays} compose_runs={st.cmp.runs} compose_events={st.cmp.events} compose_max_stack={st.cmp.maxStack} compose_cancelled_runs={st.cmp.cancelled} breaker_transitions={st.brk.transitions} breaker_refusals={st.brk.refused}"
+  IO.println s!"SUMMARY cases={cases} ops={ops} diffs={diffs} nontrivial={st.lim.nontrivial + st.brk.nontrivial + st.cls.nontrivial + st.cmp.nontrivial + st.rd.nontrivial + st.ad.nontrivial + st.lz.nontrivial + st.tc.nontrivial} trace_runs={st.tc.traces} trace_events={st.tc.events} trace_max_model_states={st.tc.maxStates} linz_rounds={st.lz.rounds} linz_ops={st.lz.opsChecked} linz_max_candidate_states={st.lz.maxCands} http_runs={st.ad.httpRuns} http_attempts={st.ad.attempts} http_retry_after_waits={st.ad.waited} delays_checked={st.rd.checkedDelays} delays_with_random_part={st.rd.randomDelays} compose_runs={st.cmp.runs} compose_events={st.cmp.events} compose_max_stack={st.cmp.maxStack} compose_cancelled_runs={st.cmp.cancelled} breaker_transitions={st.brk.transitions} breaker_refusals={st.brk.refused}"
   return (if diffs == 0 then 0 else 1)
